@@ -27,7 +27,7 @@ META = dict(
 )
 
 ALL_KINDS = ["none", "flip", "rephash", "drophash", "addhash", "inshash", "swaphash", "duphash", "ntx", "root",
-             "noflags", "truncflags"]
+             "noflags", "truncflags", "dupleaf"]
 
 CFG = """SPECIFICATION Spec
 CONSTANTS
@@ -48,6 +48,19 @@ def cfg(minn, maxn, kinds, emit=True):
 
 def case_class(b):
     return b[-1]["args"]["kind"]
+
+
+def absorb(chk, recs, label):
+    """A property violation takes precedence over model mismatches of the same run (the shared absorb stops at
+    the first mismatch): when the driver found violations that are not known findings, its mismatch records
+    are set aside and noted, so that the check ends with VIOLATION / exit 1 rather than exit 2."""
+    known = {k["key"] for k in chk.known}
+    fresh = [r for r in recs if r.get("kind") == "violation" and r.get("key") not in known]
+    mism = [r for r in recs if r.get("kind") == "mismatch"]
+    if fresh and mism:
+        chk.notes.append("%s: %d model mismatches set aside because the run found violations" % (label, len(mism)))
+        recs = [r for r in recs if r.get("kind") != "mismatch"]
+    chk.absorb(recs, label)
 
 
 def run(chk):
@@ -73,7 +86,7 @@ def run(chk):
         path = os.path.join(vf.scratch(), "mb-%d.jsonl" % i)
         vf.write_json_lines(path, behs)
         recs, _ = vf.run_driver(binary, ["replay", path])
-        chk.absorb(recs, "replay " + label)
+        absorb(chk, recs, "replay " + label)
         if i == 0:
             last = behs
 
@@ -87,7 +100,7 @@ def run(chk):
         path = os.path.join(vf.scratch(), "mb-sim.jsonl")
         vf.write_json_lines(path, behs)
         recs, _ = vf.run_driver(binary, ["replay", path])
-        chk.absorb(recs, "replay simulated corrupted messages n=10..12")
+        absorb(chk, recs, "replay simulated corrupted messages n=10..12")
 
     # binding self-tests: (a) an accepted corruption (an unread appended hash) relabelled as rejected ->
     # "real accepts where the spec rejects"; (b) one matched id removed from an expected result
